@@ -57,6 +57,8 @@ EthAnteReject(S, t) ==
   \/ ~Ex(w, t.from)                 \* fee payer account does not exist
   \/ eff < Floor(S)                 \* below base fee / global minimum gas price
   \/ t.gas * t.price = 0            \* exactly one fee coin is demanded: a zero fee (no coin) is refused even when the floor is 0
+  \/ t.gas * eff = 0                \* ... and so is a zero EFFECTIVE fee (base fee 0, tip 0): the fee checker indexes the empty coin
+                                    \* list, the panic is recovered per transaction and the transaction is refused
   \/ Bal(w, t.from) < t.gas * eff   \* cannot pay the fee
   \/ t.nonce # Nonce(w, t.from)       \* stale or future nonce
   \/ t.shape # "ok"                 \* lane rules (memo, timeout, signatures, fee fields ...): see Lanes.tla
@@ -171,6 +173,12 @@ GasLaws(t, o, res) ==
 (***************************************************************************)
 (* Cosmos-lane bank send (the other lane, so blocks can mix both).         *)
 (***************************************************************************)
+(* ExtensionOptionDynamicFeeTx (t.tip >= 0; -1 = the transaction carries none): the declared fee is a cap, the price  *)
+(* paid is min(base fee + tip, cap) and the fee charged is that price times the gas limit; the floor applies to the     *)
+(* price PAID, not to the cap.                                                                                          *)
+CosmosEffPrice(S, t) == IF t.tip >= 0 THEN Min(S.baseFee + t.tip, t.fee \div t.gas) ELSE t.fee \div t.gas
+CosmosEffFee(S, t) == IF t.tip >= 0 THEN CosmosEffPrice(S, t) * t.gas ELSE t.fee
+
 CosmosAnteReject(S, t) ==
   LET w == S.w IN
   \/ t.sigok = FALSE
@@ -178,17 +186,19 @@ CosmosAnteReject(S, t) ==
   \/ t.seqno # Nonce(w, t.from)
   \/ t.gas = 0
   \/ (S.maxGas > 0 /\ t.gas > S.maxGas)   \* SDK setup decorator (Cosmos lane only)
-  \/ (t.fee \div t.gas) < Floor(S)
+  \/ CosmosEffPrice(S, t) < Floor(S)
   \/ t.fee = 0                      \* exactly one fee coin is demanded (both lanes)
-  \/ Bal(w, t.from) < t.fee
+  \/ CosmosEffFee(S, t) = 0
+  \/ Bal(w, t.from) < CosmosEffFee(S, t)
 
 CosmosStep(S, t, o) ==
   IF S.maxGas > 0 /\ S.blockGas >= S.maxGas THEN [class |-> "dropped", S |-> S]
   ELSE IF CosmosAnteReject(S, t) THEN [class |-> "ante", S |-> [S EXCEPT !.blockGas = @ + Min(o.gasUsedRes, o.gasWanted)]]
   ELSE
     LET w == S.w
-        w1 == SetBal(w, t.from, Bal(w, t.from) - t.fee)
-        w2 == Credit(w1, "fc", t.fee)
+        fee == CosmosEffFee(S, t)
+        w1 == SetBal(w, t.from, Bal(w, t.from) - fee)
+        w2 == Credit(w1, "fc", fee)
         wA == SetSeq(w2, t.from, t.seqno + 1)
         used == Min(o.gasUsedRes, o.gasWanted)
         SA == [S EXCEPT !.w = wA, !.blockGas = @ + used]
